@@ -39,7 +39,7 @@ META = {
             "later loaded, or truncated; distinct by (grammar versions, operation sequence)",
     "explanation": "see level text",
     "trusted_base": ["Python's json module"],
-    "assumptions": ["file system mtime granularity is outside the model"],
+    "assumptions": ["file system mtime granularity below the 0.25 s steps used is outside the model"],
 }
 
 VERSIONS = [
@@ -161,7 +161,10 @@ class Dir:
         self.write("leaf")
 
     def tick(self):
-        self.clock += 10
+        # strictly increasing; every other step stays inside the same whole second (a file a quarter of a
+        # second newer than the cache is newer)
+        self.nticks = getattr(self, "nticks", 0) + 1
+        self.clock += 0.25 if self.nticks % 2 == 0 else 10
         return self.clock
 
     def write(self, which):
